@@ -63,6 +63,8 @@ class VChild:
         self.got_sigint = False
         self.future_id = None
         self.doomed = False
+        self.self_killed = False      # dies by its own hand after part of its script (no result)
+        self.linger = False           # never exits by itself after its script (a left-over non-daemon thread)
 
     def pending_put_index(self, q) -> Optional[int]:
         for i in range(self.pc, len(self.script)):
@@ -139,7 +141,7 @@ class VQueue:
                 w.mark_consumed(item)
             return item
         blocking = bool(block) and (timeout is None or timeout > 0)
-        return w.observe_empty_queue(self, blocking)
+        return w.observe_empty_queue(self, blocking, infinite=bool(block) and timeout is None)
 
     def get_nowait(self):
         return self.get(False)
@@ -207,6 +209,10 @@ class VProcess:
     def join(self, timeout=None):
         if self.child is not None and self.child.state == 'running':
             self.world.commit_all(self.child)
+            if self.child.state == 'running' and self.child.linger and timeout is None:
+                self.world.record('join-blocks-forever', self.child.idx, self.child.task_key)
+                self.world.record('livelock')
+                raise Livelock()
 
     def close(self):
         pass
@@ -684,6 +690,8 @@ class VWorld:
         self.staged: Optional[list] = None
         self.draining: set = set()
         self.burst_reduced = False
+        self.infinite_wait = False
+        self.linger_labels: frozenset = frozenset()
         self.frozen = False               # after a second interrupt: executing children make no progress unless terminated
 
     # ---- bookkeeping
@@ -741,6 +749,7 @@ class VWorld:
         self.idle_rounds = 0
         self.stuck_rounds = 0
         child.doomed = (tk[1] in self.die_labels and not use_cache)
+        child.linger = (tk[1] in self.linger_labels) and not child.doomed
         # a doomed worker runs its preamble (start event, logging set-up) and is killed at the
         # very start of the task's run(): see the ChildKilled handling below
         # --- run the child eagerly, isolated
@@ -752,9 +761,16 @@ class VWorld:
         saved_name = real_mp.current_process().name
         saved_dicts = []
         if proc.method == 'spawn':
+            # a spawned worker is a fresh interpreter: its labtech logger has none of the caller's
+            # handlers, only the default stream handler that importing labtech installs
+            import io
+            lt_logger.handlers = [logging.StreamHandler(io.StringIO())]
             self.current_child = child      # unpickling happens in the child
             try:
                 kwargs = pickle.loads(blob)
+            except BaseException:
+                lt_logger.handlers = saved_handlers
+                raise
             finally:
                 self.current_child = None
         else:
@@ -774,9 +790,9 @@ class VWorld:
         U.WORLD.child = child.idx
         killed_at = []
         saved_kill = (U.WORLD.kill_labels, U.WORLD.kill_hook)
+        U.WORLD.kill_hook = lambda: killed_at.append((len(child.script), [len(q.buf) for q in self.queue_order]))
         if child.doomed:
             U.WORLD.kill_labels = frozenset([tk[1]])
-            U.WORLD.kill_hook = lambda: killed_at.append((len(child.script), [len(q.buf) for q in self.queue_order]))
         try:
             try:
                 target(*proc.args, **kwargs)
@@ -807,6 +823,16 @@ class VWorld:
                     except BaseException as e:  # noqa
                         self.record('exit-flush-failed', child.idx, repr(e))
             child.script.append(('exit',))
+            if killed_at and not child.doomed:
+                # the task killed its own worker part-way (after some of its output): what had
+                # happened by then stays, nothing after it does, and the process ends without a result
+                n_script, buf_lens = killed_at[0]
+                child.script = child.script[:n_script]
+                for q, n in zip(self.queue_order, buf_lens):
+                    while len(q.buf) > n:
+                        q.buf.pop()
+                child.script = [ev for ev in child.script if ev[0] != 'storage'] + [('die',)]
+                child.self_killed = True
             if child.doomed:
                 # keep only what happened before the kill: drop scripted effects and eager queue
                 # items produced while the exception unwound (finally clauses, exit flush)
@@ -850,11 +876,20 @@ class VWorld:
                 MemStorage.apply_staged(ev[1])
                 self.record('storage-commit', child.idx, child.task_key)
             elif ev[0] == 'exit':
+                if child.linger:
+                    child.pc -= 1          # the process stays around
+                    return
                 child.state = 'exited'
                 child.exitcode = 0
                 self.record('exit', child.idx, child.task_key)
             elif ev[0] == 'crash':
                 pass
+            elif ev[0] == 'die':
+                child.state = 'killed'
+                child.exitcode = -9
+                self.record('killed', child.idx, child.task_key)
+                for cb in self.on_killed:
+                    cb(self, child)
 
     def commit_all(self, child: VChild):
         self.commit_upto(child, len(child.script) - 1)
@@ -879,13 +914,25 @@ class VWorld:
             for cb in self.on_killed:
                 cb(self, child)
             return False
+        if child.self_killed and not self.frozen:
+            # alive for at most one more answer, then the death shows
+            if child.alive_answers >= 1 or not self.liveness_choice:
+                self.commit_all(child)
+                child.death_observed_round = self.round
+                return False
+            child.alive_answers += 1
+            return True
         if not self.liveness_choice or self.frozen:
             return True
+        if child.linger and child.pc >= len(child.script) - 1:
+            return True                   # everything but the exit has happened, and the exit never comes
         opts = ['alive', 'exited']
         c = self.chooser.choose(2, ('alive?', child.task_key), fp=self.fp(), label_of=lambda i: opts[i])
         if c == 0:
             return True
         self.commit_all(child)
+        if child.state == 'running':
+            return True                   # a lingering worker: its result is out, the process is not
         child.death_observed_round = self.round
         return False
 
@@ -905,7 +952,7 @@ class VWorld:
         if self.frozen:
             return False
         for ch in self.children:
-            if ch.state == 'running' and (getattr(ch, 'doomed', False) or ch.result_put_index(self) is not None):
+            if ch.state == 'running' and (getattr(ch, 'doomed', False) or ch.self_killed or ch.result_put_index(self) is not None):
                 return True
         return False
 
@@ -953,11 +1000,24 @@ class VWorld:
         self.draining.add(q.qid)
         return q.buf.popleft()
 
-    def observe_empty_queue(self, q: VQueue, blocking: bool):
+    def observe_empty_queue(self, q: VQueue, blocking: bool, infinite: bool = False):
         if q is not self.result_queue and q.mode() == 'choice':
             return self.observe_drain(q)
         cands = self.deliverable(q) if q.mode() == 'choice' else []
         is_result = q is self.result_queue
+        if is_result and blocking and infinite:
+            # a wait without time-out: whatever the OS does to the workers meanwhile goes unnoticed
+            # until a result arrives.  Workers that are going to be killed die now.
+            self.infinite_wait = True
+            for ch in self.children:
+                if ch.state == 'running' and getattr(ch, 'doomed', False):
+                    ch.state = 'killed'
+                    ch.pc = len(ch.script)
+                    ch.exitcode = 0 if self.die_exit0 else -9
+                    self.record('killed', ch.idx, ch.task_key)
+                    for cb in self.on_killed:
+                        cb(self, ch)
+            cands = self.deliverable(q)
         if is_result and blocking:
             # rest point of the real stack.  Deaths observed by the liveness sampling of this
             # same poll carry the current round number (labtech reacts to them after the drain).
@@ -968,6 +1028,12 @@ class VWorld:
         allow_empty = True
         if is_result and blocking and cands and self.idle_rounds >= self.max_idle:
             allow_empty = False
+        if is_result and blocking and infinite:
+            allow_empty = False
+            if not cands:
+                self.record('blocked-forever')
+                self.record('livelock')
+                raise Livelock()
         opts: list = (['empty'] if allow_empty else []) + [('deliver', ch.idx) for ch, _ in cands]
         if len(opts) == 1:
             c = 0
